@@ -372,7 +372,7 @@ func c13RestartDirected() []*sim.Scn {
 			Ops: []sim.Op{{K: "run", A: 1200}, {K: "kill", A: 0}, {K: "run", A: 2000}, {K: "start", A: 0}, {K: "run", A: 4000}}},
 		// found with scheduling jitter: a full node starts while the sequencer publishes; the gossiped head and the
 		// first sync of go-header's syncer append the same header (repaired in the store wrapper, cd64817)
-		{Cfg: map[string]int64{"restart": 1, "nfull": 0, "bt": 500, "dat": 1000, "dalat": 5, "lazy": 1, "jitter": 4000, "jsalt": 453177065, "repeat": 8},
+		{Cfg: map[string]int64{"restart": 1, "nfull": 0, "bt": 500, "dat": 1000, "dalat": 5, "lazy": 1, "jitter": 4000, "jsalt": 453177065, "repeat": 24},
 			Ops: []sim.Op{{K: "run", A: 5847}, {K: "tx", B: 1}, {K: "stop", A: 2}, {K: "heal"}, {K: "tx", B: 2}, {K: "tx", B: 1}, {K: "kill", A: 2}, {K: "run", A: 3252}, {K: "run", A: 6798}, {K: "hang"}, {K: "stop"}, {K: "stop", A: 3}}},
 		{Cfg: map[string]int64{"restart": 1, "nfull": 1, "bt": 250, "dat": 1000, "repeat": 8, "readlat": 1},
 			Ops: []sim.Op{{K: "run", A: 700}, {K: "kill", A: 0}, {K: "run", A: 1500}, {K: "start", A: 0}, {K: "run", A: 4000}}},
